@@ -215,6 +215,25 @@ func genC01(ctx *Ctx) {
 		emitTally(ctx, t, "all-hosts-drop-connections-together")
 		e.close()
 	}
+	// (d) a host goes silent with its sockets open while requests are pending on it; the proxy itself closes those
+	// connections when heartbeats stay unanswered for the idle timeout
+	for i := 0; i < ctx.Scale(3, 24); i++ {
+		tag++
+		e := newEchoEnv(2, func(c *proxy.Config) {
+			c.ReconnectPolicy = proxycore.NewReconnectPolicyWithDelays(time.Millisecond, 5*time.Millisecond)
+			c.HeartBeatInterval = 50 * time.Millisecond
+			c.IdleTimeout = 400 * time.Millisecond
+			c.ConnectTimeout = 200 * time.Millisecond
+		})
+		h := 1 + r.Intn(2)
+		e.be.Mute(h, true)
+		t := c01Round(e, tag, 2, 40, r, nil, func() {
+			time.Sleep(1200 * time.Millisecond)
+			e.be.Mute(h, false)
+		})
+		emitTally(ctx, t, "silent-host-closed-by-the-proxy")
+		e.close()
+	}
 	c01UnpreparedSaturated(ctx, &tag)
 }
 
